@@ -1,7 +1,207 @@
-import ErgVerif.C11.Model
+import ErgVerif.C11.Proofs
+/-!
+C11 — property theorems. `genTab` is the precedence table regenerated from `TokenKind::precedence` on every run,
+`docTab` the documented one (ranks from the property statement). `expr`/`binLhs`/`lex…` are the transcribed parser and
+lexer (Model.lean); `Climb`/`Shaped`/`flatten` the specification (Proofs.lean).
+-/
 namespace ErgVerif.C11
 
-/-- the rows of the generated table are the kinds the model indexes them by -/
+/-- every operator of the property's table -/
+inductive Op where
+  | b (k : BinK) | p (k : PreK) | dot
+  deriving DecidableEq
+
+def Op.all : List Op := BinK.all.map .b ++ PreK.all.map .p ++ [.dot]
+
+def Tab.prec (t : Tab) : Op → Nat
+  | .b k => t.bin k
+  | .p k => t.pre k
+  | .dot => t.dot
+
+/-- the rows of the generated table are the kinds the model indexes them by (so a row can neither shift nor go missing) -/
 theorem C11_gen_names : Gen.C11.names = BinK.all.map BinK.name ++ PreK.all.map PreK.name ++ ["Dot"] := by decide
+
+/-- T-gen: the table in the source orders the operators exactly as the documented table does
+    (member access > ** > prefix + - ~ > * / // % > + - > shifts > && > ^^ > || > ranges > comparisons > and > or) -/
+theorem C11_table : ∀ a ∈ Op.all, ∀ b ∈ Op.all, (genTab.prec a < genTab.prec b ↔ docTab.prec a < docTab.prec b) := by
+  decide +kernel
+
+theorem Op.all_complete : ∀ o : Op, o ∈ Op.all := by
+  intro o
+  cases o with
+  | b k => cases k <;> decide
+  | p k => cases k <;> decide
+  | dot => decide
+
+theorem C11_table_bin (a b : BinK) : genTab.bin a < genTab.bin b ↔ docTab.bin a < docTab.bin b :=
+  C11_table (.b a) (Op.all_complete _) (.b b) (Op.all_complete _)
+
+/-- the binary operators are exactly the category the parser's `BinOp` arm fires on, the prefix ones are `UnaryOp` -/
+theorem C11_gen_categories :
+    Gen.C11.cats = List.replicate 29 "BinOp" ++ List.replicate 3 "UnaryOp" ++ ["SpecialBinOp"] := by decide
+
+/-- the operator-stack algorithm (`while prev_op.prec >= op_prec: reduce`, then `collect_last_binop_on_stack`) computes the
+    precedence climb, for every table, every first operand and every list of (operator, operand) pairs -/
+theorem C11_binops (tab : Tab) (a : T) (rest : List (BinK × T)) (ha : NotBin a) (hrest : ∀ p ∈ rest, NotBin p.2) :
+    reduceOps tab a rest = Climb tab a rest :=
+  reduceOps_eq_climb tab a rest ha hrest
+
+example : ∃ (a : T) (rest : List (BinK × T)), NotBin a ∧ (∀ p ∈ rest, NotBin p.2) ∧ rest.length = 3 :=
+  ⟨T.id ['x'], [(BinK.Plus, T.id ['y']), (BinK.Star, T.lit ['2']), (BinK.Pow, T.un .PreMinus (T.id ['z']))], trivial,
+    by simp [NotBin], rfl⟩
+
+/-- spec sanity: the climb keeps the operands and operators in source order -/
+theorem C11_yield (tab : Tab) (a : T) (rest : List (BinK × T)) : flatten (Climb tab a rest) = seqItems a rest :=
+  flatten_climb tab a rest
+
+/-- spec sanity: the climb is well-shaped — in every binary node the left child's operator binds at least as tight
+    (equal precedence groups to the left) and the right child's strictly tighter -/
+theorem C11_shape (tab : Tab) (a : T) (rest : List (BinK × T)) (ha : NotBin a) (hrest : ∀ p ∈ rest, NotBin p.2) :
+    Shaped tab (Climb tab a rest) :=
+  shaped_climb tab a rest (shaped_opnd tab a ha).1 hrest
+
+/-- the climb depends on the table only through the order of the precedences … -/
+theorem ins_transfer (t1 t2 : Tab) (h : ∀ a b, t1.bin a < t1.bin b ↔ t2.bin a < t2.bin b) :
+    ∀ (t : T) (op : BinK) (x : T), ins t1 t op x = ins t2 t op x
+  | .bin o l r, op, x => by
+    have ih := ins_transfer t1 t2 h r op x
+    simp only [ins, ih, h o op]
+  | .lit _, _, _ => rfl
+  | .id _, _, _ => rfl
+  | .attr _ _, _, _ => rfl
+  | .idx _ _, _, _ => rfl
+  | .un _ _, _, _ => rfl
+  | .call _ _ _, _, _ => rfl
+  | .paren _, _, _ => rfl
+  | .defn _ _, _, _ => rfl
+
+/-- … so with the table in the source it is the climb by the documented table -/
+theorem C11_climb_documented (a : T) (rest : List (BinK × T)) : Climb genTab a rest = Climb docTab a rest := by
+  unfold Climb
+  induction rest generalizing a with
+  | nil => rfl
+  | cons p rest ih => simp only [List.foldl_cons]; rw [ins_transfer genTab docTab C11_table_bin]; exact ih _
+
+/-- FULL, token level: for every configuration, fuel, context flags, lower bound `m` and token list, whatever one expression
+    level of the transcribed parser returns is the documented precedence climb of non-binary operands (literals, names,
+    attribute/index/call chains, parenthesised expressions, prefix applications) whose operators all bind tighter than `m`
+    — or, at chunk level only, a definition `v = e` -/
+theorem C11_full (f : Nat) (c : Cfg) (ch w : Bool) (m : Nat) (ts : List Tok) (t : T) (ts' : List Tok)
+    (h : expr f c ch w m ts = .ok (t, ts')) :
+    (∃ a rest, NotBin a ∧ (∀ p ∈ rest, NotBin p.2 ∧ m < c.tab.bin p.1) ∧ t = Climb c.tab a rest) ∨ (∃ v e, t = .defn v e) := by
+  cases f with
+  | zero => simp [expr] at h
+  | succ f =>
+    simp only [expr] at h
+    split at h
+    · rename_i a ts1 hb
+      have hl := loop_level f c ch w m a [] ts1 t ts' ⟨binLhs_notBin _ _ _ _ _ hb, by simp⟩ h
+      rcases hl with ⟨a', rest, ha', hr, rfl⟩ | hd
+      · exact .inl ⟨a', rest, ha', hr, reduceOps_eq_climb c.tab a' rest ha' (fun p hp => (hr p hp).1)⟩
+      · exact .inr hd
+    · simp at h
+    · simp at h
+
+/-- … hence well-shaped, with a root that binds tighter than the bound it was parsed above -/
+theorem C11_full_shape (f : Nat) (c : Cfg) (ch w : Bool) (m : Nat) (ts : List Tok) (t : T) (ts' : List Tok)
+    (h : expr f c ch w m ts = .ok (t, ts')) : Shaped c.tab t ∧ rootGt c.tab m t := by
+  rcases C11_full f c ch w m ts t ts' h with ⟨a, rest, ha, hr, rfl⟩ | ⟨v, e, rfl⟩
+  · exact ⟨shaped_climb c.tab a rest (shaped_opnd c.tab a ha).1 (fun p hp => (hr p hp).1),
+      rootGt_climb c.tab m a rest ((shaped_opnd c.tab a ha).2 m) (shaped_opnd c.tab a ha).1 hr⟩
+  · exact ⟨trivial, trivial⟩
+
+/-- prefix operators (fixed code): the operand of a prefix operator is an expression level all of whose top operators bind
+    tighter than the prefix operator itself — with the real table only `**` — so `-x + 1` is `(-x) + 1` and `-x ** 2` is `-(x ** 2)` -/
+theorem C11_prefix_operand (f : Nat) (c : Cfg) (hc : c.legacy = false) (u : PreK) (tx : List Char) (sp : Bool) (ts : List Tok)
+    (x : T) (ts' : List Tok) (h : binLhs (f + 1) c ({ kind := .pre u, text := tx, sp := sp } :: ts) = .ok (x, ts')) :
+    ∃ e, x = .un u e ∧ Shaped c.tab e ∧ rootGt c.tab (c.tab.pre u) e := by
+  simp only [binLhs, hc] at h
+  split at h
+  · rename_i e ts2 he
+    simp only [Res.ok.injEq, Prod.mk.injEq] at h
+    obtain ⟨rfl, _⟩ := h
+    have := C11_full_shape f c false false (c.tab.pre u) ts e ts2 (by simpa using he)
+    exact ⟨e, rfl, this.1, this.2⟩
+  · simp at h
+  · simp at h
+
+/-- with the table in the source, the only binary operators above the prefix operators are `**` -/
+theorem C11_prefix_only_pow (u : PreK) (k : BinK) : genTab.pre u < genTab.bin k ↔ k = .Pow := by
+  cases u <;> cases k <;> decide
+
+/-! ### the lexer rules of the property -/
+
+/-- a minus sign in prefix position directly before a digit is part of the literal (`lex_num('-')`) -/
+theorem C11_literal_minus (prev : Cat) (before : Option Char) (d : Char) (r : List Char)
+    (hfix : opFix prev before (some d) = some true) (hd : isDigit d = true)
+    (hend : numEndOk (takeWhileC isDigit r).2 = true) :
+    lexOne prev before '-' (d :: r) =
+      .tok (numKind true (d :: (takeWhileC isDigit r).1)) ('-' :: d :: (takeWhileC isDigit r).1) (takeWhileC isDigit r).2 := by
+  have hne : d ≠ '>' := by intro h; subst h; simp [isDigit] at hd
+  have h1 : isDigit '-' = false := by decide
+  have h2 : isAlpha '-' = false := by decide
+  unfold lexOne
+  simp only [h1, h2, Bool.false_eq_true, if_false]
+  simp [hfix, hd, hend, hne]
+
+/-- … and in infix position it is the binary operator -/
+theorem C11_infix_minus (prev : Cat) (before : Option Char) (d : Char) (r : List Char)
+    (hfix : opFix prev before (some d) = some false) (hne : d ≠ '>') :
+    lexOne prev before '-' (d :: r) = .tok (.bin .Minus) ['-'] (d :: r) := by
+  have h1 : isDigit '-' = false := by decide
+  have h2 : isAlpha '-' = false := by decide
+  unfold lexOne
+  simp only [h1, h2, Bool.false_eq_true, if_false]
+  simp [hfix, hne]
+
+/-- `x -1`: after a name, a minus with a space before and none after is a prefix minus (so `-1` is one literal and the
+    parser sees a juxtaposition call); `x - 1` and `x-1` are subtractions -/
+theorem C11_opfix_spacing :
+    opFix .sym (some ' ') (some '1') = some true ∧ opFix .sym (some ' ') (some ' ') = some false ∧
+    opFix .sym (some 'x') (some '1') = some false ∧ opFix .binop (some ' ') (some ' ') = some true := by decide
+
+/-! ### concrete parses (kernel-evaluated), the legacy behaviour, non-vacuity -/
+
+def tk (k : TK) (s : String) (sp : Bool := true) : Tok := { kind := k, text := s.toList, sp := sp }
+
+/-- `-x + 1` -/
+def wPrefix : List Tok := [tk (.pre .PreMinus) "-" false, tk .sym "x" false, tk (.bin .Plus) "+", tk .nat "1"]
+
+/-- finding #4, fixed: `-x + 1` parses as `(-x) + 1` … -/
+theorem C11_prefix_fixed :
+    parseToks cfgGen wPrefix = .ok (.bin .Plus (.un .PreMinus (.id ['x'])) (.lit ['1'])) := by decide +kernel
+
+/-- … and the code at the pinned commit (`legacy := true`: the operand of a prefix operator is a whole expression) parsed it
+    as `-(x + 1)`, which is not what the documented table gives -/
+theorem C11_legacy_witness :
+    parseToks cfgLegacy wPrefix = .ok (.un .PreMinus (.bin .Plus (.id ['x']) (.lit ['1']))) ∧
+    parseToks cfgLegacy wPrefix ≠ parseToks cfgDoc wPrefix := by decide +kernel
+
+/-- `-x ** 2` is `-(x ** 2)`, `2 ** -x ** 3` is `2 ** (-(x ** 3))`, `a - b - c` groups to the left, `a + b * c ** d < e` -/
+theorem C11_examples :
+    parseToks cfgGen [tk (.pre .PreMinus) "-" false, tk .sym "x" false, tk (.bin .Pow) "**", tk .nat "2"]
+      = .ok (.un .PreMinus (.bin .Pow (.id ['x']) (.lit ['2']))) ∧
+    parseToks cfgGen [tk .nat "2" false, tk (.bin .Pow) "**", tk (.pre .PreMinus) "-", tk .sym "x" false, tk (.bin .Pow) "**", tk .nat "3"]
+      = .ok (.bin .Pow (.lit ['2']) (.un .PreMinus (.bin .Pow (.id ['x']) (.lit ['3'])))) ∧
+    parseToks cfgGen [tk .sym "a" false, tk (.bin .Minus) "-", tk .sym "b", tk (.bin .Minus) "-", tk .sym "c"]
+      = .ok (.bin .Minus (.bin .Minus (.id ['a']) (.id ['b'])) (.id ['c'])) ∧
+    parseToks cfgGen [tk .sym "a" false, tk (.bin .Plus) "+", tk .sym "b", tk (.bin .Star) "*", tk .sym "c", tk (.bin .Pow) "**",
+        tk .sym "d", tk (.bin .Less) "<", tk .sym "e"]
+      = .ok (.bin .Less (.bin .Plus (.id ['a']) (.bin .Star (.id ['b']) (.bin .Pow (.id ['c']) (.id ['d'])))) (.id ['e'])) := by
+  decide +kernel
+
+/-- the lexer on `x -1`, `x - 1`, `x-1`: literal minus vs subtraction -/
+theorem C11_lex_examples :
+    lex "x -1".toList = .ok [tk .sym "x" false, tk .int "-1"] ∧
+    lex "x - 1".toList = .ok [tk .sym "x" false, tk (.bin .Minus) "-", tk .nat "1"] ∧
+    lex "x-1".toList = .ok [tk .sym "x" false, tk (.bin .Minus) "-" false, tk .nat "1" false] ∧
+    lex "x * -1".toList = .ok [tk .sym "x" false, tk (.bin .Star) "*", tk .int "-1"] := by decide +kernel
+
+-- non-vacuity of `C11_full` / `C11_prefix_operand`: the hypotheses hold at concrete inputs
+example : ∃ t ts', expr 40 cfgGen true true 0 wPrefix = .ok (t, ts') := by
+  refine ⟨.bin .Plus (.un .PreMinus (.id ['x'])) (.lit ['1']), [], ?_⟩; decide +kernel
+example : ∃ x ts', binLhs 40 cfgGen wPrefix = .ok (x, ts') := by
+  refine ⟨.un .PreMinus (.id ['x']), [tk (.bin .Plus) "+", tk .nat "1"], ?_⟩; decide +kernel
+example : opFix .lenc none (some '1') = some true ∧ isDigit '1' = true ∧ numEndOk (takeWhileC isDigit ['2', ' ']).2 = true := by decide
 
 end ErgVerif.C11
